@@ -1,4 +1,8 @@
 import FedjaxVerif.Model.Proto
+import FedjaxVerif.Handlers.C17
+import FedjaxVerif.Handlers.C12
+import FedjaxVerif.Handlers.C11
+import FedjaxVerif.Handlers.C20
 import FedjaxVerif.Handlers.C14
 import FedjaxVerif.Handlers.C05
 import FedjaxVerif.Handlers.C10
@@ -19,7 +23,7 @@ import FedjaxVerif.Handlers.C01
 open FedjaxVerif
 
 def handlers : List (String → List Val → Option Val) :=
-  [Handlers.C03.handle, Handlers.C02.handle, Handlers.C01.handle, Handlers.C04.handle, Handlers.C15.handle, Handlers.C16.handle, Handlers.C13.handle, Handlers.C08.handle, Handlers.C18.handle, Handlers.C09.handle, Handlers.C19.handle, Handlers.C06.handle, Handlers.C07.handle, Handlers.C10.handle, Handlers.C05.handle, Handlers.C14.handle]
+  [Handlers.C03.handle, Handlers.C02.handle, Handlers.C01.handle, Handlers.C04.handle, Handlers.C15.handle, Handlers.C16.handle, Handlers.C13.handle, Handlers.C08.handle, Handlers.C18.handle, Handlers.C09.handle, Handlers.C19.handle, Handlers.C06.handle, Handlers.C07.handle, Handlers.C10.handle, Handlers.C05.handle, Handlers.C14.handle, Handlers.C20.handle, Handlers.C11.handle, Handlers.C12.handle, Handlers.C17.handle]
 
 def answer (line : String) : String :=
   match parseLine line with
